@@ -1,6 +1,12 @@
-(* Props/C14.v — checkpoint and restore on the specification machine. *)
+(* Props/C14.v — checkpoint and restore.
+   (1) on the specification machine (Spec/Machine.v: checkpoint = copy of the history, restore rewinds it);
+   (2) on the mid-level machine Lsm/Checkpoint.v — table files, manifest, WAL, memtables, the block cache keyed by
+       (table id, block) only, sequence counters, oracle window — instantiated with the restore step list GENERATED from
+       Tree::restore_from_checkpoint (Lsm/CheckpointParams.v: CKPT_RESTORE_STEPS): removing or moving a statement of the
+       restore (e.g. `block_cache.clear()`) changes the list and the `eq_refl` arguments below no longer type-check. *)
 From Coq Require Import List NArith Arith Bool.
 From SKV Require Import Base.Lex Txn.WriteSet Spec.Store Spec.Cursor Spec.Versioned Spec.Machine.
+From SKV Require Import Lsm.Checkpoint Lsm.CheckpointParams Lsm.CheckpointInst Lsm.CheckpointSpec Lsm.Checkpoint_proofs.
 Import ListNotations.
 
 Lemma assoc_get_set_same {A} (i : nat) (a : A) l : assoc_get i (assoc_set i a l) = Some a.
@@ -13,14 +19,71 @@ Qed.
 (* restoring a checkpoint brings back exactly the history committed before it was taken, whatever
    happened in between *)
 Theorem C14_restore_after_checkpoint :
-  forall s c, m_hist (fst (step (fst (step s (Checkpoint c))) (Restore c))) = m_hist s.
+  forall s c, m_hist (fst (Machine.step (fst (Machine.step s (Checkpoint c))) (Restore c))) = m_hist s.
 Proof.
-  intros s c. cbn [step fst m_ckpts m_hist]. rewrite assoc_get_set_same. reflexivity.
+  intros s c. cbn [Machine.step fst m_ckpts m_hist]. rewrite assoc_get_set_same. reflexivity.
 Qed.
 
 (* the checkpoint itself, opened as a database, shows the state committed before it *)
 Theorem C14_checkpoint_content :
-  forall s c, snd (step (fst (step s (Checkpoint c))) (CkptScan c)) = RList (view (m_hist s) (length (m_hist s))).
+  forall s c, snd (Machine.step (fst (Machine.step s (Checkpoint c))) (CkptScan c)) = RList (view (m_hist s) (length (m_hist s))).
 Proof.
-  intros s c. cbn [step fst snd m_ckpts]. rewrite assoc_get_set_same. reflexivity.
+  intros s c. cbn [Machine.step fst snd m_ckpts]. rewrite assoc_get_set_same. reflexivity.
 Qed.
+
+(* ---- the mid-level machine with the generated restore ---- *)
+(* the facts about the sources the model builds in (lock first, directories replaced, log number and sequence number
+   taken from the RELOADED manifest, set_seq_num ignores 0, create_checkpoint flushes first and copies no WAL segment),
+   and the step list is the modelled one *)
+Theorem C14_ckpt_params : ckpt_params_ok = true.
+Proof. reflexivity. Qed.
+
+Theorem C14_invariant_reachable : inv_reachable_stmt CKPT_RESTORE_STEPS.
+Proof. exact (inv_reachable_of CKPT_RESTORE_STEPS eq_refl). Qed.
+
+(* (a) the checkpoint directory opens as a healthy store showing exactly the view committed before it *)
+Theorem C14_checkpoint_dir_content : checkpoint_content_stmt CKPT_RESTORE_STEPS.
+Proof. exact (checkpoint_content CKPT_RESTORE_STEPS eq_refl). Qed.
+
+(* (b) right after the restore every read through the cache returns the checkpointed view, for every key, whatever the
+   discarded timeline flushed, compacted and cached under table ids that are handed out again *)
+Theorem C14_restore_reads_checkpointed_state : restore_reads_checkpointed_state_stmt CKPT_RESTORE_STEPS.
+Proof. exact (restore_reads_checkpointed_state CKPT_RESTORE_STEPS eq_refl). Qed.
+
+Theorem C14_restore_any_checkpoint_reads_its_view : restore_any_checkpoint_reads_its_view_stmt CKPT_RESTORE_STEPS.
+Proof. exact (restore_any_checkpoint_reads_its_view CKPT_RESTORE_STEPS eq_refl). Qed.
+
+(* (c) after the restore any further history answers exactly like the same history on a store opened from the
+   checkpoint directory.  PARTIAL: not for an empty checkpoint restored into a store that has committed (set_seq_num(0)
+   does nothing: the outputs then differ in the sequence numbers; the reads are covered by the theorem above) *)
+Theorem C14_post_restore_behaves_like_fresh_open_of_checkpoint_partial :
+  post_restore_behaves_like_fresh_open_of_checkpoint_partial_stmt CKPT_RESTORE_STEPS.
+Proof. exact (post_restore_behaves_like_fresh_open_of_checkpoint_partial CKPT_RESTORE_STEPS eq_refl). Qed.
+
+(* (d) commits are never shadowed: sequence numbers above everything the store holds, at any time after a restore too *)
+Theorem C14_commit_seq_above_store : commit_seq_above_store_stmt CKPT_RESTORE_STEPS.
+Proof. exact (commit_seq_above_store CKPT_RESTORE_STEPS eq_refl). Qed.
+
+Theorem C14_restore_rewinds_above_checkpoint : restore_rewinds_above_checkpoint_stmt CKPT_RESTORE_STEPS.
+Proof. exact (restore_rewinds_above_checkpoint CKPT_RESTORE_STEPS eq_refl). Qed.
+
+(* (e) regression records: what each statement of the restore is needed for (closed runs of the same machine with the
+   statement left out; `without RClearCache` = the code before f0c5933) *)
+Theorem C14_stale_read_without_cache_clear : stale_read_without_cache_clear_stmt.
+Proof. exact stale_read_without_cache_clear. Qed.
+
+Theorem C14_restored_state_invisible_without_seq_set : restored_state_invisible_without_seq_set_stmt.
+Proof. exact restored_state_invisible_without_seq_set. Qed.
+
+Theorem C14_false_conflict_without_oracle_reset : false_conflict_without_oracle_reset_stmt.
+Proof. exact false_conflict_without_oracle_reset. Qed.
+
+Theorem C14_discarded_memtable_read_without_replacement : discarded_memtable_read_without_replacement_stmt.
+Proof. exact discarded_memtable_read_without_replacement. Qed.
+
+Theorem C14_stale_manifest_without_reload : stale_manifest_without_reload_stmt.
+Proof. exact stale_manifest_without_reload. Qed.
+
+(* (f) the hypotheses are satisfiable *)
+Example C14_hypotheses_satisfiable : hypotheses_satisfiable_stmt.
+Proof. exact hypotheses_satisfiable. Qed.
